@@ -42,13 +42,20 @@ def measure_facts(protos, P, f):
     o = [outcome(lambda: b''.join(b.from_unicode(ByteArray(encoding='base64'), s))) for s in ('AAEC AwQF', 'AAEC\r\nAwQF', 'Y Q = =')]
     f['b64IgnoresWhitespace'] = o == [{'ok': bytes(range(6))}, {'ok': bytes(range(6))}, {'ok': b'a'}]
     f['b64IgnoresWhitespaceProbe'] = str(o)
+    from spyne.model.binary import BINARY_ENCODING_BASE64
+    o = [outcome(lambda: protos[pn].to_unicode(ByteArray(encoding='hex'), [b'\xfb\xff'], BINARY_ENCODING_BASE64)) for pn in ('xml', 'base')]
+    o.append(outcome(lambda: protos['xml'].to_bytes(ByteArray(encoding='hex'), [b'\xfb\xff'], BINARY_ENCODING_BASE64)))
+    f['declaredBeatsSuggested'] = o == [{'ok': 'fbff'}, {'ok': 'fbff'}, {'ok': b'fbff'}]
+    f['declaredBeatsSuggestedProbe'] = str(o)
     return f
 
 
 def facts_lean_fields(f):
     return ('  oldYearPad := .%s\n  fmtErrorsAreFaults := %s\n  fmtAsTz := .%s\n  soapDateIso := %s\n  b64IgnoresWhitespace := %s\n'
+            '  declaredBeatsSuggested := %s\n'
             % (f['oldYearPad'], 'true' if f['fmtErrorsAreFaults'] else 'false', f['fmtAsTz'],
-               'true' if f['soapDateIso'] else 'false', 'true' if f['b64IgnoresWhitespace'] else 'false'))
+               'true' if f['soapDateIso'] else 'false', 'true' if f['b64IgnoresWhitespace'] else 'false',
+               'true' if f['declaredBeatsSuggested'] else 'false'))
 
 
 SWITCH_WITNESS = {
@@ -59,6 +66,8 @@ SWITCH_WITNESS = {
                            "the machine's local zone"),
     'b64IgnoresWhitespace': (True, "ByteArray.from_base64 does not skip the white space the xs:base64Binary lexical space allows "
                                    "('AAEC AwQF', line-wrapped MIME/PEM output): %s"),
+    'declaredBeatsSuggested': (True, "ByteArray(encoding='hex') is not written in hex when the protocol suggests base64 (as XmlDocument/Soap always "
+                                     "do): [xml, base to_unicode, xml to_bytes] of b'\\xfb\\xff' = %s — not an xs:hexBinary literal, refused on read"),
     'soapDateIso': (True, "Soap11/Soap12 write a Date(date_format=…) in the custom format but read ISO dates only (iso output: %r): "
                           "their own output is rejected"),
 }
@@ -669,3 +678,57 @@ def run(ctx, protos, P, lex, f, add, check_same, dts, dates, times):
         for lit in (hx, ' ' + hx, hx + '\n', '\n  ' + hx.upper() + '\n', wrap(hx, 2, ' '), wrap(hx, 8, '\n'), hx[:-1], hx + 'g', mutate_text(rng, hx, '0123456789abcdefABCDEFg \n')):
             if all(ord(ch) < 128 for ch in lit):
                 add({'op': 'xsdlex', 't': 'hexBinary', 's': cps(lit)}, {'ok': bool(raw_ok('hexBinary', lit))}, nontrivial=len(lit) < 300)
+
+    # ======================================================================== D12 declared encoding x suggested encoding x protocol (directed, every seed)
+    import binascii
+    consts = {'hex': BINARY_ENCODING_HEX, 'base64': BINARY_ENCODING_BASE64, 'urlsafe_base64': BINARY_ENCODING_URLSAFE_BASE64, None: None}
+    ref = {'hex': lambda b: binascii.hexlify(b).decode('ascii'), 'base64': lambda b: _b64.b64encode(b).decode('ascii'),
+           'urlsafe_base64': lambda b: _b64.urlsafe_b64encode(b).decode('ascii')}
+    xs_of = {'hex': 'hexBinary', 'base64': 'base64Binary'}
+    enc_name = {BINARY_ENCODING_HEX: 'hex', BINARY_ENCODING_BASE64: 'base64', BINARY_ENCODING_URLSAFE_BASE64: 'urlsafe_base64', None: None}
+    corpus12 = [b'\xfb\xff\xbe', b'abcd', b'\x00', bytes(range(20)), b'\xde\xad\xbe\xef']      # 'abcd'/deadbeef: base64 text that is also hex digits
+    dbad = not f['declaredBeatsSuggested']
+    for declared in ('hex', 'base64', 'urlsafe_base64', None):
+        cls = ByteArray(encoding=declared) if declared else ByteArray
+        for pn in ('xml', 'soap11', 'soap12', 'json', 'http', 'msgpack', 'yaml', 'base'):
+            p = protos[pn]
+            own = enc_name.get(getattr(p, 'binary_encoding', None))
+            for sugg in dict.fromkeys([own, 'base64', 'hex', 'urlsafe_base64', None]):      # what the protocol itself passes first
+                eff = declared or sugg or own
+                for b in corpus12:
+                    v = [b[:1], b[1:]]
+                    args = (consts[sugg],) if sugg else ()
+                    tu = outcome(lambda: text_of(p.to_unicode(cls, v, *args)))
+                    tb = outcome(lambda: text_of(p.to_bytes(cls, v, *args)))
+                    ctx.case({'op': 'ba.decl-x-sugg', 'declared': declared, 'suggested': sugg, 'p': pn, 'v': b.hex()})
+                    ctx.hit('ba:declared=%s:suggested=%s' % (declared, sugg))
+                    if not dbad:
+                        add({'op': 'ba.to', 'declared': declared or '', 'suggested': sugg or '', 'default': own or '', 'v': list(b)},
+                            {'ok': cps(tu['ok'])} if isinstance(tu.get('ok'), str) else tu)
+                    if eff is None:
+                        continue            # no text form: to_unicode refuses, to_bytes hands the bytes over (D10)
+                    want = ref[eff](b)
+                    fid = 'switch:declaredBeatsSuggested=False' if (dbad and declared and sugg and sugg != declared) else 'ba-encoding:%s' % (declared or 'default')
+                    if tu != {'ok': want} or tb != {'ok': want}:
+                        ctx.hit('t3-fail:ba-encoding')
+                        ctx.finding(fid, 'ByteArray(encoding=%r) %r written by %s with suggested encoding %r: to_unicode %r, to_bytes %r; its %s form is %r'
+                                    % (declared, b, pn, sugg, tu, tb, eff, want),
+                                    {'op': 'ba.to', 'declared': declared, 'suggested': sugg, 'proto': pn, 'input': list(b), 'got': str((tu, tb)), 'expected': want})
+                        txt = tu.get('ok')
+                    else:
+                        txt = want
+                    # lexical space of the advertised type, and the same protocol reads its own output
+                    if isinstance(txt, str) and not (declared is None and sugg is None):   # protocols always pass their suggestion when reading
+                        if declared in xs_of and not lex.ok(xs_of[declared], txt):
+                            ctx.finding(fid if fid.startswith('switch') else 'lex:%s:declared' % xs_of[declared],
+                                        'ByteArray(encoding=%r) is advertised as xs:%s but %s writes %r' % (declared, xs_of[declared], pn, txt),
+                                        {'op': 'ba.to', 'declared': declared, 'suggested': sugg, 'proto': pn, 'text': txt})
+                        back = outcome(lambda: list(b''.join(p.from_unicode(cls, txt, *args))))
+                        backb = outcome(lambda: list(b''.join(p.from_bytes(cls, txt.encode('ascii'), *args))))
+                        ctx.cov['traces_validated_against_impl'] += 1
+                        if txt == want:
+                            add({'op': 'ba.from', 'declared': declared or '', 'suggested': sugg or '', 's': cps(txt)}, back)
+                        if back != {'ok': list(b)} or backb != back:
+                            ctx.finding(fid if fid.startswith('switch') else 'roundtrip:ba-encoding:%s' % (declared or 'default'),
+                                        'ByteArray(encoding=%r) %r: %s writes %r (suggested %r) and reads it back as %r / %r' % (declared, b, pn, txt, sugg, back, backb),
+                                        {'op': 'ba.roundtrip', 'declared': declared, 'suggested': sugg, 'proto': pn, 'input': list(b), 'text': txt, 'got': str(back)})
